@@ -1272,19 +1272,21 @@ Proof.
 Qed.
 
 Lemma reattach_ok_spec : forall s r p v, reattach_ok s r p v = true ->
-  exists vn, getn s v = Some vn /\ nkind vn = KAli /\ nmembers vn = [] /\ loose s v = true /\
+  exists vn, getn s v = Some vn /\ (forall t, ntarget vn = Some t -> nkind vn = KAli) /\ nmembers vn = [] /\ loose s v = true /\
              nname vn = last p "" /\ recv_live s r = true /\ ~ (r = RRoot /\ exists k, p = [k]).
 Proof.
   intros s r p v H. unfold reattach_ok in H.
   destruct (getn s v) as [vn|] eqn:Gv; [|discriminate].
-  assert (Hb : is_ali (nkind vn) && (match nmembers vn with [] => true | _ :: _ => false end) && loose s v &&
+  assert (Hb : (is_ali (nkind vn) || match ntarget vn with None => true | Some _ => false end) &&
+               (match nmembers vn with [] => true | _ :: _ => false end) && loose s v &&
                String.eqb (last p "") (nname vn) && recv_live s r = true /\ ~ (r = RRoot /\ exists k, p = [k])).
   { destruct r as [|j].
     - destruct p as [|k0 [|k1 p2]]; try discriminate; (split; [exact H|]); intros [_ [k E]]; discriminate.
     - split; [exact H|]. intros [E _]. discriminate. }
   destruct Hb as [Hb Hroot].
   repeat (apply andb_true_iff in Hb; destruct Hb as [Hb ?]).
-  exists vn. split; [reflexivity|]. split; [destruct (nkind vn); try discriminate; reflexivity|].
+  exists vn. split; [reflexivity|]. split.
+  { intros t Ht. rewrite Ht in Hb. rewrite orb_false_r in Hb. destruct (nkind vn); try discriminate; reflexivity. }
   split; [destruct (nmembers vn); [reflexivity|discriminate]|]. split; [assumption|].
   split; [symmetry; apply String.eqb_eq; assumption|]. split; assumption.
 Qed.
@@ -3286,6 +3288,19 @@ Proof. destruct ab; vm_compute; reflexivity. Qed.
 Example sample_reattach_listed :
   option_map naliases (getn (run init sample_reattach) 2) = Some [(["c"; "c"], 4); (["a"; "c"], 3)] /\
   path_of (run init sample_reattach) 3 = POk ["a"; "c"] /\ path_of (run init sample_reattach) 4 = POk ["c"; "c"].
+Proof. destruct ab; vm_compute; repeat split; reflexivity. Qed.
+
+(* a deleted function is inserted again in another module: inside the discipline too (nothing refers to it) *)
+Definition sample_reattach_plain : list op :=
+  [ ONew Producer RRoot ["m"] KMod TNone;
+    ONew Producer RRoot ["n"] KMod TNone;
+    ONew Producer RRoot ["m"; "f"] KFun TNone;
+    ODel Producer RRoot ["m"; "f"];
+    OSet Consumer RRoot ["n"; "f"] 2 ].
+
+Example sample_reattach_plain_disciplined :
+  all_top_down init sample_reattach_plain = true /\ get (run init sample_reattach_plain) RRoot ["n"; "f"] = Ok 2 /\
+  path_of (run init sample_reattach_plain) 2 = POk ["n"; "f"].
 Proof. destruct ab; vm_compute; repeat split; reflexivity. Qed.
 
 (* finding C16-F3: the stale back-reference of a deleted alias is re-targeted by a later replacement and overwrites the
